@@ -5,6 +5,7 @@
   A changed table entry changes the subject of these `decide`s.
 -/
 import Cel.Gen.XlateTables
+import Cel.Model.XlateCel
 namespace Cel.Bridge.XlateTables
 open Cel.XlateValue Cel.Gen
 
@@ -40,6 +41,17 @@ theorem tables_balanced :
     allBalanced XlateTables.vpcAttr = true ∧ allBalanced XlateTables.kmsAttr = true ∧
     allBalanced (XlateTables.crossAccount.filter (fun p => p.1 != "glacier")) = true ∧
     allBalanced XlateTables.used = true := by decide +kernel
+
+/-- every resource-table entry, bare and inside the smallest clause its rewriter builds around it,
+lexes and is accepted by the grammar model's parser (`glacier` excluded as above) -/
+theorem tables_cel_check :
+    XlateCel.tableIsCel "age" XlateTables.ageAttr = true ∧
+    XlateCel.tableIsCel "security-group" XlateTables.sgAttr = true ∧
+    XlateCel.tableIsCel "vpc" XlateTables.vpcAttr = true ∧
+    XlateCel.tableIsCel "kms-key" XlateTables.kmsAttr = true ∧
+    XlateCel.tableIsCel "cross-account" (XlateTables.crossAccount.filter (fun p => p.1 != "glacier")) = true ∧
+    XlateCel.tableIsCel "used" XlateTables.used = true ∧ XlateCel.tableIsCel "unused" XlateTables.used = true := by
+  decide +kernel
 
 /-- `escChar` recomputed from the data regenerated from `q` -/
 def genEscChar (qc c : Char) : Str :=
